@@ -234,6 +234,47 @@ func mmcChecks(part, parts int) {
 			}
 		}
 	}
+	// boundary product: every field takes every value of a set of 7-bit
+	// boundary values (bit-field edges of the hour byte: time-code type in bits
+	// 5-6; of the frame byte: sign bit 6, status bit 5; decimal edges), all five
+	// fields together; plus all pairs of fields over the full 7-bit range on
+	// three bases.
+	edge := []int{0, 1, 2, 9, 10, 11, 0x1D, 0x1E, 0x1F, 0x20, 0x21, 0x3B, 0x3C, 0x3F, 0x40, 0x41, 0x5F, 0x60, 0x61, 0x7E, 0x7F}
+	if ctx.Thorough() {
+		edge = edge[:0]
+		for v := 0; v < 128; v++ {
+			if m := v % 8; m <= 2 || m == 7 || v == 9 || v == 10 || v == 11 || v == 0x1D || v == 0x1E || v == 0x3B || v == 0x3C {
+				edge = append(edge, v)
+			}
+		}
+	}
+	for hi := part; hi < len(edge); hi += parts {
+		for _, m := range edge {
+			for _, sc := range edge {
+				for _, f := range edge {
+					for _, sf := range edge {
+						one(mmc.GoTo{DeviceID: devs[(m+f)%3], Hour: byte(edge[hi]), Minute: byte(m), Second: byte(sc), Frame: byte(f), SubFrame: byte(sf)})
+					}
+				}
+			}
+		}
+	}
+	for f1 := 0; f1 < 5; f1++ {
+		for f2 := f1 + 1; f2 < 5; f2++ {
+			if (f1*5+f2)%parts != part {
+				continue
+			}
+			for _, bs := range [][5]int{{0, 0, 0, 0, 0}, {0x41, 1, 0, 1, 1}, {0x7F, 0x7F, 0x7F, 0x7F, 0x7F}} {
+				for x := 0; x < 128; x++ {
+					for y := 0; y < 128; y++ {
+						a := bs
+						a[f1], a[f2] = x, y
+						one(mmc.GoTo{DeviceID: 1, Hour: byte(a[0]), Minute: byte(a[1]), Second: byte(a[2]), Frame: byte(a[3]), SubFrame: byte(a[4])})
+					}
+				}
+			}
+		}
+	}
 	if part == 0 {
 		// every ordered pair of device ids through the same receiver
 		ids := []byte{1, 2, 64, 126, 127, 0, 1, 126, 2}
